@@ -30,6 +30,26 @@ CHECKS = {
         text="Proof of the byte-exact version-file codec round trip for every encodable version (and the sharp refutation at 256 runs = finding F4, fixed) and that equal content gives equal reads; every real reopen is checked by comparing the full dump before and after (layout, table ids, global seqnos, entries, marks), continuing the history afterwards (id allocation) and re-certifying.",
         note=NOTE_TB + "sfa container framing and checksums are trusted here (C10); blob/gc sections are order-insensitive maps.",
         design="7/C04", technique="Coq proof (codec round trip) + before/after-reopen dump comparison"),
+    "C05": dict(
+        text="PARTIAL (protocol level). Coq model of a POSIX-like file system (per-file durable/volatile content, per-directory-entry durability, crash = any admissible loss of unsynced effects incl. a torn final write) and of the crate's publication protocol and recovery; theorems: every syscall trace accepted by the decidable protocol_ok recovers, at EVERY crash point and for EVERY persistence outcome, to exactly the version before or after the operation, never a mixture and never an unopenable directory (crash_atomic_generic / crash_atomic_from, crash_preserves_consistency), the crash-image enumerator is sound and complete for the crash relation, the crate's flush / compaction / maintenance traces satisfy protocol_ok, and the shipped blob-flush trace is refuted (F9, fixed). Each run captures the real syscalls of every operation with strace, translates them to the model and evaluates the extracted protocol_ok on them (a changed order / dropped fsync fails here), then materialises crash images as real directories and opens them with the real crate: open must succeed with the logical state before or after the interrupted operation and never behind a returned one.",
+        note=NOTE_TB + "Partial: the theorem quantifies over all crash points and persistence outcomes OF THE MODEL file system; the kernel / file system itself, and torn writes below the granularity of one write() prefix, are modelled not verified; crash images on real traces are enumerated per syscall boundary with sampled subsets of unsynced effects (not all 2^n in the quick tier). strace and the trace translator are trusted.",
+        design="7/C05", technique="Coq proof (crash refinement of the publication protocol over a file-system model) + strace trace validation against the extracted protocol checker + real crash images opened by the crate"),
+    "C06": dict(
+        text="PARTIAL (critical-section granularity). Coq interleaving model of the tree's threads (writer drawing seqnos and inserting under the read guard, rotation, flusher capturing sealed memtables, k compactors with the hidden set, major compaction, upgrade_version under the write guard, readers) with an inductive invariant CInv proved for EVERY schedule and every program set: retained superversions sound, hidden-set discipline, no acknowledged write lost, flusher prefix, major exclusive; corollaries: reads at clean (published) snapshots equal the ordered-map Spec, no expect() fires, final state holds every write, schedule independence; the unclean case is refuted (K2). Each run executes real threads (writer, readers, flushers, compactors, major, drop_range) against the crate under three snapshot modes, logs every read with the snapshot it used, and replays the log through the certificate / oracle runner; the final tree is reopened and compared.",
+        note=NOTE_TB + "Partial: the proof covers all interleavings of the MODEL's atomic steps (critical sections as the source takes its locks); memory-model effects below that granularity and the OS scheduler are not modelled; real runs sample schedules only. Known finding K2 (a write drawn before but inserted after a concurrent version upgrade can be missed by a snapshot taken from the visible counter) is reported as KNOWN-FINDING.",
+        design="7/C06", technique="Coq proof (inductive invariant over all schedules of an interleaving model) + threaded differential runs replayed through the certificate checker"),
+    "C10": dict(
+        text="PARTIAL (hash as parameter). Byte-level Coq models of the block envelope (33-byte header with its own checksum + payload checksum + type), the version file guarded by the checksum in `current` (F8 fix), the `current` file, the sfa table of contents / trailer and the blob frame, with theorems that EVERY single-byte change and EVERY truncation of a guarded region yields an error or the unchanged answer, for every checksum function that separates the two byte strings (the hypothesis is exactly 'the 128-bit xxh3 of the altered bytes differs'), plus explicit refutations for the regions the format leaves unguarded (blob frame header seqno / length fields seen only by the relocation scanner; F8 before the fix). Each run enumerates bit flips and truncations over every region of real table / blob / version / current files produced by generated histories, then performs open + all point reads + scans in an isolated process and requires an error or the original answers.",
+        note=NOTE_TB + "Partial: collision-freeness of xxh3 on the compared pair is a hypothesis of each theorem (no hash can make it unconditional); the enumeration on real files samples positions per region in the quick tier (all regions, not all bytes).",
+        design="7/C10", technique="Coq proof (every byte of the guarded envelopes is covered by a checked checksum) + fault enumeration over real files with full read-out"),
+    "C16": dict(
+        text="PARTIAL (protocol level). Over the same file-system model: a failure of any syscall of a publication leaves memory at the old version and the directory in a state from which recovery yields the old or the new version and a retry is accepted (fail_atomic, publish_shape_ok), and the late-failure case (root fsync after the rename of `current` fails, then retry) is refuted with a witness (Ex2.late_failure_retry_refuted = known finding K3). Each run fails every file-system syscall of flush / compaction / drop_range / clear / ingestion one at a time with strace fault injection (EIO, ENOSPC) on real histories and requires: Err without panic, unchanged reads and dumps, successful retry, recoverable directory.",
+        note=NOTE_TB + "Partial: as C05; additionally fault points are the syscalls the unchanged code issues (a change that adds syscalls gets new points automatically). K3 is reported as KNOWN-FINDING.",
+        design="7/C16", technique="Coq proof (failure atomicity of the publication protocol) + syscall fault injection on the real crate"),
+    "C20": dict(
+        text="PARTIAL (model of deletion = is_deleted flag + last reference). Theorems: the reclaim function deletes exactly the files named by no retained version (reclaim_exact) and keeps every file a retained version names (reclaim_keeps), and the maintenance trace satisfies the protocol. Each run lists the real directory after every operation and after every reopen and compares tables/, blobs/ and v* with what the current and the retained versions name (leak / live-file-missing), with snapshots held and released, failed operations and crash leftovers in the histories; the extracted reclaim must agree with the set of files the crate removed.",
+        note=NOTE_TB + "Partial: Arc reference counting is modelled as 'the set of retained versions'; Drop ordering in the runtime is observed, not proved. Findings F10 (clear leaked files) and F11 (empty ingestion leaked its table file) were found by this check and fixed.",
+        design="7/C20", technique="Coq proof (reclaim exactness over retained versions) + directory-listing differential after every operation"),
     "C07": dict(
         text="Proofs that the decidable invariant check_inv_sv means exactly the property's structure (disjoint ascending runs, one table per key per run, recency order across containers, exact metadata, unique ids), that optimize_runs and with_new_l0_run/with_dropped/with_merge/with_moved preserve it for all inputs under decidable placement conditions, and the version-file round trip; on every real run check_inv_sv is evaluated on EVERY published superversion, the model's transformations must reproduce the real layouts, and the placement conditions are evaluated on every real step.",
         note=NOTE_TB + "File existence is checked from the directory listing in C20; manifest bytes vs model decoder in C04.",
